@@ -324,6 +324,12 @@ class _History:
                 epoch_ends += 1
                 steps_in_epoch = 0
                 pending = None
+                if getattr(self, "_last_of_fit", False):
+                    # the next fit (or a validate / test call in between) runs setup() again on the same module:
+                    # everything observed so far -- running advantage statistics, moving averages -- carries over
+                    with run.guard(self.scope, "model.setup() of the next fit"):
+                        model.setup("fit")
+                    run.probe("setup_again")
                 model.train()
                 loader = iter(model.train_dataloader())
                 continue
@@ -357,6 +363,19 @@ class _History:
     def _epoch_end(self):
         run, model = self.run, self.model
         self.sh.trainer.current_epoch = self.epoch
+        # one epoch end in three is the LAST epoch of a fit (trainer.max_epochs == epoch + 1) after which training
+        # is continued with a larger max_epochs: the baseline's epoch callback (warm-up weight, rollout update)
+        # belongs to the epoch that just ended, whether or not another one follows in this fit
+        # (not with a greedy-rollout baseline: there the next fit re-wraps the training set in setup(), which this
+        # harness does not replay; continuing on the unwrapped set hits rl4co's on-the-fly rollout path, which is
+        # known not to work on a finished state -- observation, DESIGN 10.3)
+        rollout_based = self.plan["algo"] == "reinforce" and self.plan.get("baseline") in ("rollout", "warmup_string")
+        last_of_fit = (not rollout_based) and run.chooser.pick(3, lambda: run.chooser.rng.randrange(3)) == 0
+        self.sh.trainer.max_epochs = self.epoch + 1 if last_of_fit else 1000
+        self._last_of_fit = last_of_fit
+        if last_of_fit:
+            run.probe("epoch_end_last_of_fit")
+            run.fault("fit_boundary")
         self.tap.clear()
         if self.ctap:
             self.ctap.clear()
@@ -374,6 +393,7 @@ class _History:
                 run.log.add("observation", "ttest assert", self.epoch)
             raise
         self.tap.clear()
+        self.sh.trainer.max_epochs = 1000
         run.probe("epoch_callback")
         run.history.append(["epoch_end", self.epoch])
         if self.warm is not None:
